@@ -24,6 +24,12 @@ fn rooted_strategy() -> BoxedStrategy<TreeCase> {
   (sms_inner(cfg), 0u8..5u8).prop_map(move |(spec, style)| TreeCase { spec: crate::gen::rooted_inner(normalize(spec, cfg), style) }).boxed()
 }
 
+/// the original text (and the inner map's sourcesContent entry for it) larger than 64 KiB
+fn huge_strategy() -> BoxedStrategy<TreeCase> {
+  let cfg = GenCfg { max_tokens: 12, ..GenCfg::positional() };
+  crate::gen::sms_inner_huge(cfg).prop_map(move |spec| TreeCase { spec: normalize(spec, cfg) }).boxed()
+}
+
 fn strip(a: &crate::observe::AttrFull) -> Attr {
   crate::observe::strip(a)
 }
@@ -35,7 +41,7 @@ impl Prop for C09 {
     "SourceMapSource with inner map from gen::sms_inner: ASCII generated text with a consistent outer map over 1-3 \
      sources one of which is the inner source name, outer original positions mostly inside (sometimes beside) the \
      original text, a consistent inner map over the original text (1-3 sources, names, optional sourceRoot), \
-     now and then a file of the inner map carries the name of a file the outer map passes through (identical content), original_source given or taken from the outer sourcesContent, remove_original_source, both column settings; \
+     now and then a file of the inner map carries the name of a file the outer map passes through (identical content), a third leg makes the original text (and the inner map's sourcesContent entry for it) larger than 64 KiB / 128 KiB, original_source given or taken from the outer sourcesContent, remove_original_source, both column settings; \
      map() is compared per byte with a reference composition over the generated segment lists. Non-trivial: \
      >=1 byte resolved through a mapped inner chunk and >=1 through the fallback or pass-through; distinct by hash \
      of the case JSON".into()
@@ -44,6 +50,7 @@ impl Prop for C09 {
     vec![
       Leg { name: "(outer, inner) pairs", source: Cases::Generated(Box::new(strategy), 600_000, 8_000_000) },
       Leg { name: "(outer, inner) pairs, outer map with a sourceRoot", source: Cases::Generated(Box::new(rooted_strategy), 150_000, 2_000_000) },
+      Leg { name: "(outer, inner) pairs, original text larger than 64 KiB", source: Cases::Generated(Box::new(huge_strategy), 6_000, 60_000) },
     ]
   }
   fn check(&self, case: &TreeCase) -> CheckResult {
